@@ -12,6 +12,22 @@ CHECKS = {
    text="The finite space of the four precondition parameters x object state x operation (all upload protocols incl. conditions captured at resumable initiation with the object changed in between, patch, delete, compose destination and per-source generation) x store is enumerated completely, then revisited from every history of a depth-3 BFS; status and the complete state of every object are compared with the model after each request.",
    note="Failure status may be 412 or (for a failing not-match condition) 304; patch/delete on an absent object may answer 404 or the precondition status.",
    ref="§4 C04"),
+ "C06": dict(engine="SCHED", engines=["SCHED","SEQ"], technique="stateless model checking of the real service under a controlled scheduler (preemption-bounded DFS over all interleavings) with a porcupine linearizability oracle; plus exhaustive failure-atomicity enumeration",
+   text="(a) 2-3 client threads issue single-row writes and reads on colliding rows against the real bttest service; every interleaving within the preemption bound at the registry mutex, table RWMutex, clock read, every storage-engine Rows call and stream Send is executed, and the recorded call/return history plus a final full read is checked for linearizability against the sequential reference model. (b) every mutation list of length <=3 with an invalid element at each position, through MutateRow, a MutateRows entry, both CheckAndMutateRow branches and RMW rule lists: the row must be unchanged.",
+   note="Scheduling points are synchronisation operations and storage calls; code between two points runs atomically, which is sound for data-race-free code (race detector side condition in C20). MutateRows is judged per entry.",
+   ref="§4 C06"),
+ "C16": dict(engine="SCHED", engines=["SCHED","SEQ"], technique="bounded-exhaustive policy enumeration driving the real GC loop through clock/timer seams, plus stateless model checking of the pass against concurrent writers",
+   text="(a) every rule tree of a catalogue x every subset of cell timestamps straddling the cut-off x pass timing (idle 1h: collect exactly; idle 1 min: must not run; repeated passes) x engines, executed through the real background loop iteration; (b) the real pass over 100 filler rows + target rows under a controlled scheduler with 1-2 writer threads, every interleaving within the preemption bound; each row's final content must be explained by its acknowledged writes plus one atomic collect step at any position or omitted; deadlock = violation.",
+   note="A pass must collect after 1h idle when the table was written since the last pass, must not run within 4 minutes of a data request; in between not judged.",
+   ref="§4 C16"),
+ "C18": dict(engine="SCHED", technique="stateless model checking of a multi-message scan against concurrent writers under a controlled scheduler, per-row version oracle from the reference model",
+   text="One ReadRows scan whose rows exceed 1024 cells (so it streams several messages and gives up the table lock at each Send) runs against 1-2 writer threads (SetCell, delete row, new rows before/between/after, read-modify-write, multi-row write); every interleaving within the preemption bound is executed on the leveldb engines; the result must be OK, well-formed, strictly ascending, and every returned row must equal one state that row had during the scan; untouched rows exact.",
+   note="leveldb engines only, as the property says. Row versions come from the reference model applied to the recorded write history.",
+   ref="§4 C18"),
+ "C19": dict(engine="SCHED", technique="stateless model checking of the real TransientLockMap at the granularity of its internal steps (map mutex, channel select with explorer-chosen ready case), every key assignment, cancellation and bad unlock",
+   text="Every interleaving (unbounded for 2 workers, preemption-bounded for 3 workers x 2 keys x 2 rounds in every key assignment) of Lock/Unlock/Run workers, a canceller and a thread unlocking a key it does not hold; invariants on every state (<=1 holder per key, blocked implies held, visible refcount>=1) and at the end (no deadlock, refusal only after the context ended, bad unlock panics, map empty).",
+   note="An Unlock by a non-holder while the key really is held releases it by contract: such executions are classified 'excused'.",
+   ref="§4 C19"),
  "C09": dict(engine="SEQ", technique="explicit-state BFS over request programs with a restart (fresh emulator on the same directory) after every request, plus side-by-side differential execution on both stores",
    text="(a) every program up to the depth bound on the file store with the emulator replaced by a fresh instance on the same directory after EVERY request; the full observable state must equal the model of acknowledged requests, including after external loss of a sidecar and for bare content files; (b) the same programs on memory and file store side by side with every HTTP response compared after replacing generations by rank and masking timestamps.",
    note="The file store keeps no volatile state, so a new instance on the same directory is exactly a kill between requests. Names are file-representable.",
